@@ -197,6 +197,9 @@ func (f *fctx) assume(t Term) {
 }
 
 func (f *fctx) oblige(kind, name string, goal Term, pos token.Pos, desc string) {
+	if kind == "X" && f.con != nil && f.con.NoOverflow {
+		return // float side conditions are not panics: skipped in no-overflow (sweep) contracts
+	}
 	g := Implies(f.curReach, goal)
 	if g.S == "true" {
 		// still count trivially true obligations
@@ -450,6 +453,41 @@ func (vc *VC) TranslateFunction(fn *ssa.Function, con *Contract) (sc *Script, er
 	for i, p := range fn.Params {
 		f.assumeTypeInvariant(args[i], p.Type(), true)
 	}
+	// case split on a field of a parameter object: the entry heap holds the split constant there
+	for _, sp := range con.Splits {
+		parts := strings.SplitN(sp.Var, ".", 2)
+		if len(parts) != 2 || strings.HasPrefix(sp.Var, "$") {
+			continue
+		}
+		obj, ok := f.paramTerms[parts[0]]
+		if !ok || obj.Ty == nil {
+			return nil, fmt.Errorf("contract error: split %s: unknown parameter %s", sp.Var, parts[0])
+		}
+		pt, ok := obj.Ty.Underlying().(*types.Pointer)
+		if !ok {
+			return nil, fmt.Errorf("contract error: split %s: parameter is not a pointer", sp.Var)
+		}
+		st, ok := pt.Elem().Underlying().(*types.Struct)
+		if !ok {
+			return nil, fmt.Errorf("contract error: split %s: not a struct", sp.Var)
+		}
+		ss := vc.structSortOf(pt.Elem(), st)
+		found := false
+		for _, fl := range ss.Fields {
+			if fl.Name == parts[1] {
+				found = true
+				key := "H$" + ss.Name + "$" + fl.Name
+				nm := "s!" + sp.Var
+				sc.Params = append(sc.Params, ParamDecl{Name: nm, Source: sp.Var, Sort: SInt})
+				h := f.heap(key, fl.Sort)
+				f.cur.cells[key] = Term{S: fmt.Sprintf("(store %s %s %s)", h.S, obj.S, nm), Sort: h.Sort}
+				f.paramTerms[sp.Var] = Term{S: nm, Sort: SInt}
+			}
+		}
+		if !found {
+			return nil, fmt.Errorf("contract error: split %s: no such field", sp.Var)
+		}
+	}
 	f.entry = f.cur.clone()
 	// requires
 	env := f.contractEnv(con, fn, args, nil, f.cur, f.entry)
@@ -476,6 +514,12 @@ func (vc *VC) TranslateFunction(fn *ssa.Function, con *Contract) (sc *Script, er
 		}
 		vt := f.define("valid", wantBoolE(t))
 		f.validTerm = &vt
+	}
+	if f.ideal {
+		// trusted identity used by the Mercator row formula (ideal reals only): log(tan p + 1/cos p) = asinh(tan p)
+		sc.emit("(assert (forall ((q!p Real)) (! (= (m.Log (+ (m.Tan q!p) (/ 1.0 (m.Cos q!p)))) (m.Asinh (m.Tan q!p))) :pattern ((m.Tan q!p)))))")
+		sc.Trusted["ideal-real identity: log(tan p + 1/cos p) = asinh(tan p)"] = true
+		sc.Trusted["float64 arithmetic treated as real arithmetic in this function (float ideal)"] = true
 	}
 	// vacuity guard: the precondition must be satisfiable
 	sc.Items = append(sc.Items, Item{Ob: &Obligation{Name: "V/requires-sat", Kind: "V", Goal: "true", ExpectSat: true, Func: name, Desc: "precondition satisfiable"}})
@@ -1300,6 +1344,13 @@ func (f *fctx) loopHeader(h *ssa.BasicBlock, ord int, preds []*ssa.BasicBlock, c
 	}
 	// havoc modified state
 	mod := f.loopModifies(h)
+	existing := f.loopWritesExisting(h)
+	topBefore := map[string]Term{}
+	if t, ok := f.cur.cells["top"]; ok {
+		topBefore["top"] = t
+	} else {
+		topBefore["top"] = Term{S: "top!0", Sort: SInt}
+	}
 	for _, k := range sortedKeys(mod) {
 		old, ok := f.cur.cells[k]
 		if !ok {
@@ -1311,9 +1362,27 @@ func (f *fctx) loopHeader(h *ssa.BasicBlock, ord int, preds []*ssa.BasicBlock, c
 				continue
 			}
 		}
+		if strings.HasPrefix(k, "H$") && !existing[k] {
+			// the loop writes this field only in objects it allocates itself: every object that existed
+			// at loop entry keeps its value, and the values at not-yet-allocated references are
+			// unconstrained in the entry heap anyway, so the entry heap stands for the heap of any iteration
+			continue
+		}
 		nv := f.declare("hv_"+k, old.Sort)
 		if k == "top" {
 			f.assume(T(SBool, "(>= %s %s)", nv.S, old.S))
+		}
+		if strings.HasPrefix(k, "H$") && !existing[k] {
+			// frame: the loop writes this field only in objects it allocates itself, so every object
+			// that existed at loop entry keeps its value
+			topEntry := f.cur.cells["top"]
+			if te, ok := topBefore["top"]; ok {
+				topEntry = te
+			}
+			if topEntry.S == "" {
+				topEntry = Term{S: "top!0", Sort: SInt}
+			}
+			f.assume(T(SBool, "(forall ((q!r Int)) (! (=> (<= q!r %s) (= (select %s q!r) (select %s q!r))) :pattern ((select %s q!r))))", topEntry.S, nv.S, old.S, nv.S))
 		}
 		if strings.HasPrefix(k, "iter$") {
 			f.assume(T(SBool, "(>= %s 0)", nv.S))
@@ -1486,6 +1555,99 @@ func (f *fctx) loopModifies(h *ssa.BasicBlock) map[string]bool {
 		}
 	}
 	return mod
+}
+
+// loopWritesExisting: heap keys that the loop may write in objects that already
+// existed when the loop was entered (as opposed to objects allocated inside it).
+func (f *fctx) loopWritesExisting(h *ssa.BasicBlock) map[string]bool {
+	out := map[string]bool{}
+	inLoop := map[*ssa.BasicBlock]bool{}
+	for _, b := range f.inLoop[h] {
+		inLoop[b] = true
+	}
+	var freshInLoop func(v ssa.Value, depth int) bool
+	freshInLoop = func(v ssa.Value, depth int) bool {
+		if depth > 8 {
+			return false
+		}
+		switch x := v.(type) {
+		case *ssa.Alloc:
+			return inLoop[x.Block()]
+		case *ssa.FieldAddr:
+			return freshInLoop(x.X, depth+1)
+		case *ssa.IndexAddr:
+			return freshInLoop(x.X, depth+1)
+		case *ssa.Call:
+			if c := x.Call.StaticCallee(); c != nil && inLoop[x.Block()] {
+				if con := f.vc.contractOf(c); con != nil && len(con.Fresh) > 0 {
+					return true
+				}
+				return f.vc.returnsFresh(c, 0, 0)
+			}
+		case *ssa.Extract:
+			if call, ok := x.Tuple.(*ssa.Call); ok && inLoop[call.Block()] {
+				if c := call.Call.StaticCallee(); c != nil {
+					return f.vc.returnsFresh(c, x.Index, 0)
+				}
+			}
+		}
+		return false
+	}
+	allKeysOf := func(t types.Type) []string {
+		pt, ok := t.Underlying().(*types.Pointer)
+		if !ok {
+			return nil
+		}
+		st, ok := pt.Elem().Underlying().(*types.Struct)
+		if !ok {
+			return nil
+		}
+		ss := f.vc.structSortOf(pt.Elem(), st)
+		var ks []string
+		for _, fl := range ss.Fields {
+			ks = append(ks, "H$"+ss.Name+"$"+fl.Name)
+		}
+		return ks
+	}
+	for _, b := range f.inLoop[h] {
+		for _, ins := range b.Instrs {
+			switch x := ins.(type) {
+			case *ssa.Store:
+				if freshInLoop(x.Addr, 0) {
+					continue
+				}
+				root := rootOfAddr(x.Addr)
+				if fa, ok := root.(*ssa.FieldAddr); ok {
+					if key, ok := f.vc.heapKeyOfFieldAddr(fa); ok {
+						out[key] = true
+					}
+				} else if _, isAlloc := root.(*ssa.Alloc); !isAlloc {
+					for _, k := range allKeysOf(x.Addr.Type()) {
+						out[k] = true
+					}
+				} else {
+					for _, k := range allKeysOf(x.Addr.Type()) {
+						out[k] = true
+					}
+				}
+			case ssa.CallInstruction:
+				callee := x.Common().StaticCallee()
+				if callee == nil {
+					continue
+				}
+				args := x.Common().Args
+				for key, vias := range f.vc.effectsVia(callee) {
+					for via := range vias {
+						if via >= 0 && via < len(args) && freshInLoop(args[via], 0) {
+							continue
+						}
+						out[key] = true
+					}
+				}
+			}
+		}
+	}
+	return out
 }
 
 func (vc *VC) allocKeys(fn *ssa.Function, depth int) map[string]bool {
